@@ -5,14 +5,17 @@ from common import cq, chunks
 from props._fa_common import TRUSTED, ASSUMPTIONS, TECHNIQUE
 
 PROP = "C16"
-LEVEL = "other"
-THEOREMS = {"Properties.C16": ["C16_translate"]}
-LEVEL_TEXT = ("Partial proof + correspondence: the model of translate (exploration of (remaining input, output, state), mirrored up to set-iteration order) is "
+LEVEL = "proof"
+THEOREMS = {"Properties.C16": ["C16_translate", "C16_union", "C16_concatenate", "C16_kleene_star", "C16_to_fst"]}
+LEVEL_TEXT = ("Proof + correspondence: the model of translate (exploration of (remaining input, output, state), mirrored up to set-iteration order) is "
               "proved to return exactly the outputs related to the input word, for all transducers and words whenever the exploration terminates (it does "
-              "when epsilon cycles write nothing). union / concatenate / kleene_star / to_fst are modelled by reference constructions with tagged states; "
-              "the transducers pyformlang returns are compared with them by translating every input word up to a bound with the proved translate. The "
-              "relational theorems for the reference constructions are not yet proved.")
-LEVEL_NOTE = "Trusted: Coq kernel; hand-written model validated by correspondence; Python harness. Relation equality of two transducers is checked on bounded inputs only."
+              "when epsilon cycles write nothing). The mirrored union / concatenate / kleene_star (tagged copies, bridge epsilon moves, fresh start=final "
+              "state) and to_fst are proved to have exactly the union, the pairwise concatenation, the Kleene star of the operand relations and the "
+              "identity on the automaton's language, for all operands. The transducers pyformlang returns are compared with the models by translating "
+              "every input word up to a bound with the proved translate, and pyformlang's own translate output with both.")
+LEVEL_NOTE = ("Trusted: Coq kernel; hand-written model validated by correspondence (pyformlang renames states by suffixing an index, the model tags "
+              "them; equality of the returned transducer's relation with the model's is checked on bounded inputs only); Python harness. Not proved: "
+              "termination of translate when epsilon cycles are silent.")
 RULE = ("random FSTs (1-4 states, <= 8 transitions, outputs of length 0-2, several start/final states, epsilon-input moves incl. output-free epsilon cycles, "
         "re-entered start states, final states with outgoing edges, operands sharing state names) x all input words up to length 3|4; outputs compared as sets")
 EXPLANATION = "translate proved exact; operations compared with reference constructions on bounded inputs."
